@@ -21,14 +21,40 @@ def parseBatch (j : Json) : Except String (Batch Int) := do
 def colJson (c : Col Int) : Json :=
   Json.mkObj [("k", kindStr c.kind), ("r", toJson c.rows)]
 
+def outJson (r : Run Int) : List (String × Json) := [
+    ("out", Json.arr (r.out.map fun b => Json.arr (b.map colJson).toArray).toArray),
+    ("err", Driver.optErrJson r.err)]
+
+/-- the library of row functions shared with `harness/props/c19.py` (`ROW_FNS`) -/
+def rowFn : String → Except String (List Int → List Int)
+  | "id" => .ok id
+  | "sum" => .ok fun r => [r.sum]
+  | "rev" => .ok List.reverse
+  | "dup" => .ok fun r => r ++ r
+  | "affine" => .ok fun r => r.map fun x => 2 * x + 1
+  | "first" => .ok fun r => [r.headD 0]
+  | s => .error s!"bad row function {s}"
+
+/-- `{"model":"rebatch","target":t,"ncols":n,"pad":p|null,"batches":[[{"k":kind,"r":[..]},..],..]}`
+→ `run`, plus `pulls`.  With `"op":"treefn"` and `"fn_batch","nout_kinds","g"` → `treeFn`. -/
 def handle (j : Json) : Except String Json := do
   let target ← Driver.getNat j "target"
   let ncols ← Driver.getNat j "ncols"
-  let pad ← Driver.getOptInt j "pad"
   let bs ← (← Driver.getArr j "batches").toList.mapM parseBatch
-  let r := run target ncols pad bs
-  return Json.mkObj [
-    ("out", Json.arr (r.out.map fun b => Json.arr (b.map colJson).toArray).toArray),
-    ("err", Driver.optErrJson r.err)]
+  match j.getObjValAs? String "op" with
+  | .ok "treefn" =>
+    let fb ← Driver.getNat j "fn_batch"
+    let kinds ← (← Driver.getArr j "nout_kinds").toList.mapM fun k => do kindOf (← k.getStr?)
+    let g ← rowFn (← Driver.getStr j "g")
+    -- `Select` has no function at all (`_identity_fn`): the batch passes through untouched
+    let ident := (j.getObjValAs? Bool "ident").toOption.getD false
+    let r := if ident then treeFn fb target ncols ncols id bs
+             else treeFn fb target ncols kinds.length (mapRows g kinds) bs
+    return Json.mkObj (outJson r)
+  | .ok op => throw s!"bad op {op}"
+  | .error _ =>
+    let pad ← Driver.getOptInt j "pad"
+    let r := run target ncols pad bs
+    return Json.mkObj (outJson r ++ [("pulls", toJson (pulls target ncols pad bs))])
 
 end Driver.Rebatch
